@@ -171,6 +171,21 @@ def corpus():
     out.append(case(CT_MP, F.chunked(ok1 + okf + END, [5, 9]), cl=-1, chunked=True, mem=16, access='files',
                     sched=[0, 1, 0, 0, 2, 0, 5, 0, 0, 3] * 30))
     out.append(case(CT_MP, F.chunked(ok1 + okf + END, [5, 9])[:-9], cl=-1, chunked=True, mem=16, sched=[0, 2] * 90))
+    # ---- json.loads raising a PLAIN ValueError (CPython >= 3.11: integer literal of more than 4300 digits): seed C12-9
+    out.append(case('application/json', b'9' * 5000, access='json'))
+    out.append(case('application/json', b'{"a": ' + b'1' * 4400 + b'}', access='forms'))
+    out.append(case('application/json', F.chunked(b'[' + b'9' * 4301 + b']', [4000, 500]), cl=-1, chunked=True, mem=8192,
+                    access='json'))
+    out.append(case('application/json', b'9' * 4300, access='json'))                              # still legal
+    out.append(case('application/json', b'"\\ud83d"', access='json'))                             # lone surrogate: legal
+    out.append(case('application/json', b'{"a":1,"a":2}', access='forms'))
+    # ---- control bytes that survive str.splitlines inside the part headers of an UPLOAD (seed C12-10)
+    for hv in (b'X-Custom: a\x00b', b'Content-Type: text/\x00plain', b'Content-Type: text/plain\x00; charset=utf-8',
+               b'X-A: \x01\x02\x7f', b'X-B: \x1f', b'Content-Transfer-Encoding: \x00', b'X\x00Name: v'):
+        out.append(case(CT_MP, part(CD + b'name="f"; filename="x.bin"', b'DATA', b'\r\n' + hv) + END, access='files'))
+    out.append(case(CT_MP, part(CD + b'name="f\x00"; filename="x\x00.bin"', b'DATA', b'\r\nContent-Type: a/b') + END,
+                    access='POST'))
+    out.append(case(CT_MP, part(CD + b'name="t"', b'v', b'\r\nX-Custom: a\x00b') + END))
     # ---- F37: forms/json of a chunked request ignore a Content-Length sent next to it (too small / too large / 0)
     jw = F.chunked(b'{"a": 1}', [3])
     out.append(case('application/json', jw, cl=3, chunked=True, mem=64, access='json'))
@@ -215,7 +230,11 @@ EXTRA_HEADERS = [b'Content-Transfer-Encoding: binary', b'Content-Transfer-Encodi
                  b'Content-Length: 3', b'Content-Length: abc', b'X-Custom: a; b=c; d="e;f"', b'Content-Type: text/html',
                  b'content-type: text/plain; charset=klingon', b'Content-ID: <x@y>', b'Content-Disposition: attachment',
                  b'Content-Type: multipart/mixed; boundary=inner', b'Content-Type:', b'Content-Type: ;charset=utf-8',
-                 b'Content-Type: text/plain; CHARSET=KLINGON', b'Content-Type: text/plain; charset']
+                 b'Content-Type: text/plain; CHARSET=KLINGON', b'Content-Type: text/plain; charset',
+                 # control bytes that survive str.splitlines (NUL, SOH, US, DEL ...) in header names and values
+                 b'X-Custom: a\x00b', b'Content-Type: text/\x00plain', b'Content-Type: \x00', b'X-Ctl: \x01\x02\x08\x0e\x1b\x1f\x7f',
+                 b'Content-Transfer-Encoding: bin\x00ary', b'X\x00Y: v', b'Content-Type: text/plain\x00; charset=utf-8',
+                 b'X-Tab:\ta\tb', b'Content-Length: 4\x00']
 
 
 def part_headers(rng):
@@ -244,10 +263,10 @@ def good_multipart(rng):
             before, after = part_headers(rng)
             val = rng.choice([b'v', b'v' * 25, b'\xc3\xa9', b'\xff\xfe', b'aGk=', b'', b'\r\n-'])
             kind = rng.random()
-            if kind < 0.7:
+            if kind < 0.5:
                 disp = CD + b'name="' + nm + b'"'
             else:
-                disp = CD + b'name="' + nm + b'"; filename="' + rng.choice([b'f.txt', b'']) + b'"'
+                disp = CD + b'name="' + nm + b'"; filename="' + rng.choice([b'f.txt', b'f.txt', b'a\x00b', b'']) + b'"'
             parts.append(b'--XyZ\r\n' + before + disp + after + b'\r\n\r\n' + val + b'\r\n')
             continue
         if rng.random() < 0.4:
@@ -281,7 +300,18 @@ def mutate(rng, b):
     return bytes(b)
 
 
-JSONS = [b'', b'{', b'[1]', b'{"a":1}', b'null', b'1.5', b'"s"', b'\xff', b'[' * 1200, b'{"a":[1,{"b":2}]}', b'true', b'0',
+# every exception json.loads can raise: JSONDecodeError, UnicodeDecodeError, RecursionError and the PLAIN ValueError of
+# CPython >= 3.11 for an integer literal of more than 4300 digits; plus legal oddities (NaN/Infinity, huge floats and
+# exponents, duplicate keys, lone surrogates, BOMs, UTF-16/32 bodies)
+JSONS_HEAVY = [b'9' * 5000, b'[' + b'9' * 4301 + b']', b'{"a": ' + b'1' * 4400 + b'}', b'-' + b'9' * 4301, b'1' + b'0' * 4300,
+               b'9' * 4300, b'{"n": [1, 2, {"x": -' + b'7' * 4500 + b'}]}', b'0.' + b'1' * 5000, b'1E+' + b'9' * 5000,
+               b'1e-' + b'9' * 4400, b'{"a":' * 1500 + b'1' + b'}' * 1500, b'"' + b'x' * 6000 + b'"']
+JSONS_ODD = [b'Infinity', b'-Infinity', b'[NaN, Infinity]', b'{"a":1,"a":2}', b'"\\ud83d"', b'{"\\ud83d": "\\udc00"}',
+             b'"\\ud83d\\ude00"', b'\xff\xfe[\x001\x00]\x00', b'\x00\x00\x00[\x00\x00\x001\x00\x00\x00]', b'\xfe\xff\x00[\x00]',
+             b'\xef\xbb\xbf[1]', b'"\\x"', b'"\t"', b'[1,]', b'{"a":1,}', b'01', b'1.', b'.5', b'-', b'+1', b'1e', b'"\\u12"',
+             b"{'a': 1}", b'[1] [2]', b'\x00', b'tru', b'nul', b'{"a": {"b": {"c": [[[[]]]]}}}', b'-0', b'1e400', b'-1e400',
+             b'\xc3\x28', b'"\xed\xa0\x80"', b'"\xf4\x90\x80\x80"']
+JSONS = JSONS_HEAVY + JSONS_ODD + [b'', b'{', b'[1]', b'{"a":1}', b'null', b'1.5', b'"s"', b'\xff', b'[' * 1200, b'{"a":[1,{"b":2}]}', b'true', b'0',
          b'{}', b' {"a": "\\u00e9"} ', b'{"a":1}x', b'\xef\xbb\xbf{}', b'{"a":NaN}', b'[' * 40 + b']' * 40, b'{"a" 1}',
          b'\xff\xfe{\x00}\x00']
 CT_JSON = ['application/json', 'application/json; charset=utf8', 'application/jsonx', ' application/json', 'Application/JSON',
@@ -515,15 +545,18 @@ def encode(case):
     if ((case['access'] != 'body' or case.get('pre', 'none') not in ('none', 'body'))
             and ct.split(';')[0].strip() == 'application/json' and cl_int(case) is not None):
         p = payload_of(case)
-        lim = min(len(p), case['mem'] + 1)
-        memo = {}
-        for i in range(lim + 1):
+        # _get_body_string reads min(len, cl) bytes (cl < 0 or chunked: min(len, limit + 1)): only those lengths matter
+        n = cl_int(case)
+        lens = {len(p), min(len(p), case['mem'] + 1)}
+        if n is not None and n >= 0:
+            lens.add(min(len(p), n))
+        tab = [0] * (len(p) + 1)
+        for i in lens:
             b = p[:i]
             try:
-                k = {1: 1, 0: 2, 2: 3}[jkind(json.loads(b))] if b else 0
-            except (ValueError, RecursionError):
-                k = 0
-            tab.append(k)
+                tab[i] = {1: 1, 0: 2, 2: 3}[jkind(json.loads(b))] if b else 0
+            except (ValueError, RecursionError):       # JSONDecodeError, UnicodeDecodeError, plain ValueError (huge int)
+                tab[i] = 0
     pre = case.get('pre', 'none')
     acc = 8 * (5 if pre == 'none' else ACCESS.index(pre)) + ACCESS.index(case['access'])
     return ([case['mem'], 0 if case['maxb'] is None else 1, case['maxb'] or 0, 0 if case['cl_raw'] is None else 1, acc]
